@@ -160,7 +160,13 @@ def gen_callable(rng, i, cbtype):
         params.append(['error', 'GError**', None])
     rt = rng.choice(RET_TYPES)[0]
     ra = gen_annotations(rng, rt, [(q[0], q[1]) for q in params if q[1] != 'GError**'], 'ret', cbtype) if rng.random() < 0.7 else None
-    return dict(name=('FooCbt%d' if cbtype else 'foo_f%d') % i, cbtype=cbtype, params=[tuple(p) for p in params], ret=rt, ret_ann=ra)
+    name = ('FooCbt%d' if cbtype else 'foo_f%d') % i
+    if not cbtype and i % 9 == 4 and 'self_' not in used:
+        # g_resources_register(), gdk_events_get_angle(): the symbol starts with the prefix of its first parameter's type but not with
+        # prefix + '_', so the function stays a function of the namespace and gets a method twin (moved-to) that shares its parameters
+        params.insert(0, ['self_', 'FooObj*', None])
+        name = 'foo_objs_f%d' % i
+    return dict(name=name, cbtype=cbtype, params=[tuple(p) for p in params], ret=rt, ret_ann=ra)
 
 
 def tree_of(tn):
@@ -185,10 +191,16 @@ def comment_for(c, line0):
             lines.append(' *   %s: doc of %s' % (' '.join(render_ann(a) for a in anns[1:]), nm))
             continue
         lines.append(' * @%s: %s%sdoc of %s' % (nm, ' '.join(render_ann(a) for a in anns), ': ' if anns else '', nm))
+    rline = None
+    rstyle = zlib.crc32(c['name'].encode()) % 7
+    if c['ret_ann'] is not None and rstyle in (2, 5):
+        # the return value documented in the parameter list, as old GTK-Doc comments do ("@Returns:", any letter case)
+        rline = line0 + len(lines)
+        lines.append(' * @%s: %s%sthe result' % ('Returns' if rstyle == 2 else 'RETURNS', ' '.join(render_ann(a) for a in c['ret_ann']),
+                                                 ': ' if c['ret_ann'] else ''))
     lines.append(' *')
     lines.append(' * description')
-    rline = None
-    if c['ret_ann'] is not None:
+    if c['ret_ann'] is not None and rline is None:
         lines.append(' *')
         rline = line0 + len(lines)
         if len(c['ret_ann']) >= 2 and zlib.crc32(c['name'].encode()) % 3 == 1:
@@ -315,7 +327,11 @@ def run_batch(S, ET, batch, line_base=1000):
     r = S.run(syms, comments=comments, includes=['GLib', 'GObject', 'Gio'], dump=ET.ElementTree(ET.fromstring(DUMP)))
     ns = S.gir_ns(r.root)
     byid = {}
-    for tag in ('function', 'method', 'constructor'):
+    twins = {}
+    for tag in ('method', 'constructor', 'function'):        # a function of the namespace wins over its moved-to method twin
+        for el in ns.iter(S.CORE + tag):
+            if tag == 'method' and el.get('moved-to'):
+                twins[el.get(S.CNS + 'identifier')] = el
         byid.update({el.get(S.CNS + 'identifier'): el for el in ns.iter(S.CORE + tag)})
     for el in ns.findall(S.CORE + 'callback'):
         byid[el.get(S.CNS + 'type')] = el
@@ -340,6 +356,25 @@ def run_batch(S, ET, batch, line_base=1000):
         c['throws'] = el.get('throws') == '1'
         c['pwarn'] = [sorted(warn.get((c['name'], k), ())) for k in range(len(c['params']))]
         c['rwarn'] = sorted(warn.get((c['name'], 'ret'), ()))
+        c['twin'] = None
+        if c['name'] in twins:
+            # the method twin: the same references between parameters, by name
+            def refs(e):
+                pl = e.find(S.CORE + 'parameters')
+                pl = pl.findall(S.CORE + 'parameter') if pl is not None else []
+                names = [q.get('name') for q in pl]
+                got = {}
+                for q in pl + [e.find(S.CORE + 'return-value')]:
+                    for attr in ('closure', 'destroy'):
+                        if q.get(attr) is not None:
+                            k_ = int(q.get(attr))
+                            got[(q.get('name') or 'return', attr)] = names[k_] if 0 <= k_ < len(names) else '<out of range %d>' % k_
+                    for a_ in q.iter(S.CORE + 'array'):
+                        if a_.get('length') is not None:
+                            k_ = int(a_.get('length'))
+                            got[(q.get('name') or 'return', 'length')] = names[k_] if 0 <= k_ < len(names) else '<out of range %d>' % k_
+                return got
+            c['twin'] = (refs(el), refs(twins[c['name']]))
         out.append(c)
     return out, r.log
 
@@ -348,6 +383,12 @@ def direct_clauses(ck, c, agrees_with_model=None):
     """clauses of the property judged on the output alone"""
     length_targets = set(dict(a[1]).get('length') for q in list(c['params']) + [(None, None, c['ret_ann'])]
                          for a in (q[2] or []) if a[0] == 'array')
+    if c.get('twin'):
+        fr, tr = c['twin']
+        if fr != tr:
+            ck.failing_input('a function and its method twin (moved-to) do not give the same closure, destroy and array-length references '
+                             '(compared by parameter name)', dict(callable=c['name'], params=c['params'], ret=c['ret'], ret_ann=c['ret_ann']),
+                             detail=dict(function={'%s.%s' % k_: v_ for k_, v_ in fr.items()}, method={'%s.%s' % k_: v_ for k_, v_ in tr.items()}))
     for k, (nm, tn, anns) in enumerate(c['params']):
         if anns is None or k >= len(c['pobs']):
             continue
